@@ -55,7 +55,34 @@ func GenerateArgs(r *rng.R) *Input {
 
 // Build makes the real schema whose resolvers answer from the outcome tree handed to Execute as
 // InitialValue.
-func (in *Input) Build() (*graphql.Schema, error) { return buildSchema(in.Schema) }
+func (in *Input) Build() (*graphql.Schema, error) {
+	s, err := buildSchema(in.Schema)
+	if err != nil {
+		return nil, err
+	}
+	// cost functions, for the cost rule (Execute does not read them): a field whose type is a list
+	// (under any non-null wrapper) costs 2 and multiplies the cost of what is selected beneath it
+	// by 3; every other field has the default cost.  Pipe/CostCompose.v [list_cost] says the same.
+	for _, t := range s.NamedTypes() {
+		var fields map[string]*graphql.FieldDefinition
+		switch t := t.(type) {
+		case *graphql.ObjectType:
+			fields = t.Fields
+		case *graphql.InterfaceType:
+			fields = t.Fields
+		}
+		for _, f := range fields {
+			ft := f.Type
+			if nn, ok := ft.(*graphql.NonNullType); ok {
+				ft = nn.Type
+			}
+			if _, ok := ft.(*graphql.ListType); ok {
+				f.Cost = func(graphql.FieldCostContext) graphql.FieldCost { return graphql.FieldCost{Resolver: 2, Multiplier: 3} }
+			}
+		}
+	}
+	return s, nil
+}
 
 // SchemaSexp is the schema in the encoding of Exe/ExecDecode.v.
 func (in *Input) SchemaSexp() sexp.Node { return schemaSexp(in.Schema) }
